@@ -61,8 +61,26 @@ def generate(rng, tier):
             rng.shuffle(burst)
             ops = burst + [[3, c]] + ops + [[3, c]]
         flat = [x for o in ops for x in o] + [3, 0, 4, 3, 0]
+        if has_tie(flat):
+            continue
         cases.append({"ints": flat, "tag": "history"})
     return cases
+
+
+def has_tie(ints):
+    """two announcements of one chunk with the same absolute expiry: outside the stated assumption (std::sort ties)"""
+    i, now, seen = 0, 1000, set()
+    size = {1: 4, 2: 3, 3: 2, 4: 1, 5: 2}
+    while i < len(ints) and ints[i] in size:
+        if ints[i] == 1:
+            k = (ints[i + 1], now + ints[i + 3])
+            if k in seen:
+                return True
+            seen.add(k)
+        elif ints[i] == 5:
+            now += max(0, ints[i + 1])
+        i += size[ints[i]]
+    return False
 
 
 def reference(ints):
@@ -109,6 +127,9 @@ def judge(case, impl, model):
         return {"fail": f"C06|crash|kind={impl[1]}"}
     if impl and impl[0] == -1000:
         return {"fail": f"C06|exception|class={impl[1]}"}
+    if has_tie(case["ints"]):
+        # outside the assumption (equal expiries: the order std::sort gives ties is unspecified): not judged
+        return {"corr": True, "nontrivial": False}
     exp = reference(case["ints"])
     pos = 0
     saw_sweep = False
